@@ -367,12 +367,16 @@ class _GitFile(IO[bytes]):
         """
         if self._closed:
             return
-        self._file.close()
         try:
-            os.remove(self._lockfilename)
-            self._closed = True
-        except FileNotFoundError:
-            # The file may have been removed already, which is ok.
+            self._file.close()
+        finally:
+            # Remove the lock even if flushing the buffered data failed
+            # (e.g. ENOSPC), so a failed write never leaves the lock behind.
+            try:
+                os.remove(self._lockfilename)
+            except FileNotFoundError:
+                # The file may have been removed already, which is ok.
+                pass
             self._closed = True
 
     def close(self) -> None:
@@ -390,14 +394,14 @@ class _GitFile(IO[bytes]):
         """
         if self._closed:
             return
-        self._file.flush()
-        if self._fsync:
-            os.fsync(self._file.fileno())
-        self._file.close()
-        # Adjust before the rename, so the file is never visible at the
-        # final path with the wrong permissions.
-        adjust_shared_perm(self._lockfilename, self._shared_perm)
         try:
+            self._file.flush()
+            if self._fsync:
+                os.fsync(self._file.fileno())
+            self._file.close()
+            # Adjust before the rename, so the file is never visible at the
+            # final path with the wrong permissions.
+            adjust_shared_perm(self._lockfilename, self._shared_perm)
             if getattr(os, "replace", None) is not None:
                 os.replace(self._lockfilename, self._filename)
             else:
@@ -407,8 +411,14 @@ class _GitFile(IO[bytes]):
                     # Windows versions prior to Vista don't support atomic
                     # renames
                     _fancy_rename(self._lockfilename, self._filename)
-        finally:
+        except BaseException:
+            # The lock file is still ours: discard it.
             self.abort()
+            raise
+        # The lock file has been renamed over the target. From here on the
+        # lock path may already belong to another writer, so it must not be
+        # removed.
+        self._closed = True
 
     def __del__(self) -> None:
         if not getattr(self, "_closed", True):
